@@ -12,7 +12,7 @@ TrStyles == {"scope", "native"}
 TrRelax == {}
 AllDevs == <<"KeepaliveCountsAll", "AbandonAssignedFresh", "TimeoutAfterAssign", "CancelAtGateLeavesNew",
              "EstabFailLeaksStream", "CancelInEstabLeaksStream", "NativeCancelInShield", "ReconnectOnFailed",
-             "WaiterCancelFlagsFailed", "ActivateEvicted", "InitRetryOnClosed", "MuxCancelCorrupts">>
+             "WaiterCancelFlagsFailed", "ActivateEvicted", "InitRetryOnClosed", "MuxCancelCorrupts", "MuxIdleWhileUsersWait">>
 DevAll == {AllDevs[i] : i \in DOMAIN AllDevs}
 ChoiceIntended == <<{}>>
 \* diagnosis round 1: each deviation alone, then all together
